@@ -151,7 +151,9 @@ func init() {
 		for _, ws := range []string{" ", "\t", "\n", "\v", "\f", "\r"} {
 			noWS = And(noWS, Not(StrContains(s, StrConst(ws))))
 		}
-		e.addAxiom(fmt.Sprintf("trim:%d", s.id), AndN(StrContains(s, r), Implies(noWS, Eq(r, s))))
+		if !e.abstractIDs {
+			e.addAxiom(fmt.Sprintf("trim:%d", s.id), AndN(StrContains(s, r), Implies(noWS, Eq(r, s))))
+		}
 		e.note("strings.TrimSpace on symbolic input: ASCII whitespace only (Unicode spaces outside the claim)")
 		return r
 	}))
@@ -164,6 +166,9 @@ func init() {
 	reg("strings.ToUpper", pure(func(e *Engine, a []Value) Value {
 		if c, ok := goStr(a[0]); ok {
 			return StrConst(strings.ToUpper(c))
+		}
+		if t := strT(a[0]); t.Op == "uf" && t.Name == "hexenc" {
+			return e.hexUF(t.Args[0], true)
 		}
 		return UF("toupper", StrS, strT(a[0]))
 	}))
